@@ -143,3 +143,46 @@ func ruleHandlerDemote() *Rule {
 		},
 	}
 }
+
+// ruleApplyWait: C15 APPLY-WAIT.
+//
+// applyCond is signalled only when the commit index grows (an edge), so the apply loop may sleep on it only when it
+// has established, in the same critical section, that nothing is left to apply (lastApplied ≥ commitIndex): a
+// broadcast that fires while the loop is not waiting (before it first reaches the wait after Start, or while it
+// holds the mutex) is otherwise lost, and what is committed is not applied until the commit index moves again — on
+// an idle cluster, never. (The other four loops wait unconditionally too, but their conditions are re-signalled
+// periodically or they hold the mutex across their whole body; only this one is edge-triggered.)
+func ruleApplyWait() *Rule {
+	const id = "APPLY-WAIT"
+	return &Rule{
+		ID: id,
+		Text: "In applyLoop every Cond.Wait happens only with lastApplied ≥ commitIndex established in the same critical section (or after the node was seen shut down): " +
+			"the loop never goes to sleep on an edge-triggered signal while committed entries are waiting to be applied.",
+		Floor: 1,
+		Run: func(p *Program) []Obligation {
+			root := p.Func("(*Raft).applyLoop")
+			if root == nil {
+				return missing(id, "(*Raft).applyLoop")
+			}
+			stateAtom := p.StateAtom()
+			sp := NewSpace(CmpAtom("lastApplied?commitIndex", "r.lastApplied", "r.commitIndex"), stateAtom)
+			a := NewAnalysis(p, sp)
+			a.Hook = func(a *Analysis, f *Frame, in ssa.Instruction, st State) State {
+				if op, _ := isMutexOp(callCommonOf(in)); op == "Cond.Wait" && f.Parent == nil {
+					n := instrOrdinal(in, func(x ssa.Instruction) bool { o, _ := isMutexOp(callCommonOf(x)); return o == "Cond.Wait" })
+					a.Observe("Cond.Wait"+ordSuffix(n)+" in "+chainKey(f), f, in, st)
+				}
+				return st
+			}
+			a.Run(root, nil)
+			sd := enumIdx(stateAtom, "Shutdown")
+			out := evalObs(a, id, a.SortedObs(), func(_ *Observation, pt int) bool {
+				return sp.Val(pt, 0) != LT || sp.Val(pt, 1) == sd
+			}, []int{0}, "the apply loop sleeps only when nothing committed is left to apply")
+			if len(out) == 0 {
+				return []Obligation{{Rule: id, Construct: "Cond.Wait in (*Raft).applyLoop", Verdict: AnchorLost, Detail: "no wait found"}}
+			}
+			return out
+		},
+	}
+}
